@@ -100,6 +100,22 @@ def splices(ctx, idu=None, ids=None):
         if i in (0, 4):
             continue  # group elements: random bytes rarely decode; covered by the sweep
         reject(ke2[:a] + ctx.tape(b - a) + ke2[b:], "with re-randomised field %d" % i)
+    # Curve25519: the server's ephemeral key shifted by each of the 7 small-order points - a DIFFERENT key with the same
+    # Diffie-Hellman outputs; only the transcript (which hashes the key as received) tells them apart
+    if L.ke == "X25519":
+        a_, b_ = fb[4]
+        shifts = x25519_torsion_shifts(ke2[a_:b_])
+        if shifts is not None:
+            for t_, u_ in enumerate(shifts):
+                if ctx.call("ke_pk", u_).ok:
+                    reject(ke2[:a_] + u_ + ke2[b_:], "with the server's ephemeral key shifted by small-order point %d" % (t_ + 1))
+        # and the client's own view: a request whose key share is shifted is another request
+        a1 = L.Noe + NN
+        sh1 = x25519_torsion_shifts(ke1[a1:])
+        if sh1:
+            m_ = srv(f.setup, f.file, ke1[:a1] + sh1[0])
+            if m_ is not None:
+                reject(m_, "made for the request with a shifted client key share")
     # reflected request: evaluation element := the client's own blinded element
     reject(ke1[:L.Noe] + ke2[L.Noe:], "reflecting the blinded element", "Reflected")
     # wrong context / identities on the client side also reject the genuine response
